@@ -2236,6 +2236,27 @@ fn eval_shapes() -> Vec<Shape> {
         s("[...X, 1]", |x| arr(vec![(true, x.clone()), (false, cint(1))])),
         s("(X or 2) + 1", |x| bin(Bop::Plus, bin(Bop::Or, x.clone(), cint(2)), cint(1))),
         s("X if X is defined else 'd'", |x| tern(test(x.clone(), "defined", false), x.clone(), sstr("d"))),
+        // branches / operands that are bare variables and dotted paths: the forms the peephole
+        // pass fuses with the final WriteTop when the expression is printed directly
+        s("'g' if X else u.name", |x| tern(x.clone(), sstr("g"), attr(var("u"), "name", false))),
+        s("u.name if X else 'g'", |x| tern(x.clone(), attr(var("u"), "name", false), sstr("g"))),
+        s("'g' if X else w", |x| tern(x.clone(), sstr("g"), var("w"))),
+        s("w if X else u.name", |x| tern(x.clone(), var("w"), attr(var("u"), "name", false))),
+        s("'g' if X else nope2", |x| tern(x.clone(), sstr("g"), var("nope2"))),
+        s("nope2 if X else 'g'", |x| tern(x.clone(), var("nope2"), sstr("g"))),
+        s("'g' if X else nope2.a", |x| tern(x.clone(), sstr("g"), attr(var("nope2"), "a", false))),
+        s("nope2.a.b if X else 'g'", |x| tern(x.clone(), attr(attr(var("nope2"), "a", false), "b", false), sstr("g"))),
+        s("'g' if X else u.missing", |x| tern(x.clone(), sstr("g"), attr(var("u"), "missing", false))),
+        s("'g' if X else u.name.first", |x| tern(x.clone(), sstr("g"), attr(attr(var("u"), "name", false), "first", false))),
+        s("X and u.name", |x| bin(Bop::And, x.clone(), attr(var("u"), "name", false))),
+        s("X or u.name", |x| bin(Bop::Or, x.clone(), attr(var("u"), "name", false))),
+        s("X and w", |x| bin(Bop::And, x.clone(), var("w"))),
+        s("X or w", |x| bin(Bop::Or, x.clone(), var("w"))),
+        s("X and nope2.a", |x| bin(Bop::And, x.clone(), attr(var("nope2"), "a", false))),
+        s("X or nope2.a", |x| bin(Bop::Or, x.clone(), attr(var("nope2"), "a", false))),
+        s("X or nope2", |x| bin(Bop::Or, x.clone(), var("nope2"))),
+        s("(w if X else u.name) ~ '!'", |x| bin(Bop::Concat, Sx::Paren(bx(tern(x.clone(), var("w"), attr(var("u"), "name", false)))), sstr("!"))),
+        s("'a' if X else ('b' if w else u.name)", |x| tern(x.clone(), sstr("a"), Sx::Paren(bx(tern(var("w"), sstr("b"), attr(var("u"), "name", false)))))),
     ]
 }
 
@@ -2295,6 +2316,49 @@ fn json_env(env: &[(String, Value)]) -> serde_json::Value {
     serde_json::Value::Object(env.iter().map(|(k, v)| (k.clone(), json_value(v))).collect())
 }
 
+/// Implementation-side oracle: printing `e` directly with `{{ e }}` (the only form in which the
+/// compiler ends the expression with WriteTop and the peephole pass may fuse it into WritePath)
+/// gives the text that printing the VALUE `e` evaluates to gives (`{{ __pv }}` with `__pv` bound
+/// to the probed value), and fails exactly when evaluating `e` fails or yields undefined.
+fn direct_print_oracle(meta: &mut Meta, tera: &Tera, text: &str, env: &[(String, Value)], probed: &Outcome<Value>, shape: &str) {
+    let ctx = context_of(env);
+    let src = format!("{{{{ {text} }}}}");
+    let direct = guarded(|| tera.render_str(&src, &ctx, false));
+    meta.oracle_checks += 1;
+    let show = |o: &Outcome<String>| match o {
+        Outcome::Ok(t) => json!({"ok": t}),
+        Outcome::Err(c, m) => json!({"err": c, "msg": m}),
+        Outcome::Panic(m) => json!({"panic": m}),
+    };
+    let mut fail = |what: &str, expect: serde_json::Value| {
+        meta.oracle_fail(
+            what,
+            None,
+            json!({"template": src, "ctx": json_env(env), "shape": shape, "direct": show(&direct),
+                   "probed": probed.json(json_value), "expected": expect}),
+        );
+    };
+    match probed {
+        Outcome::Panic(_) => {}
+        Outcome::Ok(v) if !v.is_undefined() => {
+            let mut c2 = Context::new();
+            c2.insert_value("__pv", v.clone());
+            let expect = guarded(|| tera.render_str("{{ __pv }}", &c2, false));
+            match (&direct, &expect) {
+                (Outcome::Ok(a), Outcome::Ok(b)) if a == b => {}
+                (Outcome::Err(..), Outcome::Err(..)) => {}
+                _ => fail("`{{ e }}` does not print the value e evaluates to", show(&expect)),
+            }
+        }
+        // undefined value or evaluation error: printing must be an error (never a panic, never text)
+        _ => {
+            if !matches!(direct, Outcome::Err(..)) {
+                fail("`{{ e }}` renders although e is undefined or fails to evaluate", json!("error"));
+            }
+        }
+    }
+}
+
 fn emit_eval(sink: &mut Sink, meta: &mut Meta, tera: &Tera, s: &Sx, env: &[(String, Value)], print: bool, shape: &str, rng: &mut Rng) {
     let text = expr_text(s, rng);
     let r = run_eval(tera, &text, env, print);
@@ -2302,6 +2366,9 @@ fn emit_eval(sink: &mut Sink, meta: &mut Meta, tera: &Tera, s: &Sx, env: &[(Stri
     meta.oracle_checks += 1;
     if let Outcome::Panic(m) = &r {
         meta.oracle_fail(&format!("panic while evaluating: {m}"), None, desc.clone());
+    }
+    if !print {
+        direct_print_oracle(meta, tera, &text, env, &r, shape);
     }
     let envg: Vec<String> = env.iter().map(|(k, v)| format!("({}, {})", gal_str(k), gal_value(v))).collect();
     let g = format!(
@@ -2693,7 +2760,12 @@ fn main() {
     // (S) systematic: every operand x every shape
     let shapes = eval_shapes();
     let operands = eval_operands(if thorough { 1 } else { 2 });
-    for (xn, x, env) in &operands {
+    for (xn, x, env0) in &operands {
+        // `u` and `w` are bound in every systematic context (used by the path-branch shapes)
+        let mut env = env0.clone();
+        env.push(("u".to_string(), vmap(vec![("name", Value::from("alice"))])));
+        env.push(("w".to_string(), Value::from("wv")));
+        let env = &env;
         for (i, (sn, f)) in shapes.iter().enumerate() {
             let e = f(x);
             let tag = format!("{sn} @ {xn}");
